@@ -153,9 +153,7 @@ func TestVerif_C19_same(t *testing.T) {
 	}
 	stop := func(cs ...*Client) {
 		for _, c := range cs {
-			if c != nil && c.Dump != nil {
-				c.DisableDumpAll()
-			}
+			c19DisableDump(c)
 		}
 	}
 
